@@ -17,6 +17,9 @@ TARGETS = TARGETS + ["theories/Proofs/GenEq_Groups.vo"]
 GENEQ = dict(GENEQ, **{"theories/Proofs/GenEq_Groups.vo": "Groups"})
 TARGETS = TARGETS + ["theories/Proofs/GenEq_EvalSM.vo"]
 GENEQ = dict(GENEQ, **{"theories/Proofs/GenEq_EvalSM.vo": "EvalSM"})
+# T1 units added after round 4 of the seeded changes
+TARGETS = TARGETS + ["theories/Proofs/GenEq_ResultInit.vo"]
+GENEQ = dict(GENEQ, **{"theories/Proofs/GenEq_ResultInit.vo": "ResultInit"})
 ALLOWED_AXIOMS = []
 RULE = ("(i) evaluate() on random/structured pairs x input type x matcher (naive, many-to-one, merge) x matching metric/threshold x decision "
         "metric in {none, IOU, DSC, ASSD} x decision thresholds where 0, some or all instances fail; the identities are checked directly on "
@@ -187,6 +190,20 @@ def run(ctx):
         c = {"input": it, "imetrics": ["DSC", "IOU", "ASSD", "RVD"], "gmetrics": []}
         if it == "unmatched":
             c.update({"matcher": "naive", "mmetric": "IOU", "mthr": 0.05})
+        cases.append((c, pred, ref))
+    # the same decreasing metric for matching and decision, the matcher more lenient than the decision threshold: instances with
+    # decision < ASSD <= matching threshold are matched but must not count as true positives
+    for _ in range(ctx.scale(14, 140)):
+        h, w = rng.randint(6, 9), rng.randint(18, 26)
+        ref = np.zeros((h, w), np.uint8); pred = np.zeros((h, w), np.uint8)
+        ref[1:5, 1:7] = 1; pred[1:5, 1 + rng.randint(0, 1):7] = 1                          # ASSD small
+        ref[1:5, 10:16] = 2; pred[1 + rng.randint(1, 2):5 + rng.randint(0, 1), 10 + rng.randint(2, 3):16 + rng.randint(1, 3)] = 2   # ASSD ~1-2
+        it = rng.choice(["unmatched", "unmatched", "semantic"])
+        c = {"input": it, "imetrics": ["ASSD", "IOU"], "gmetrics": [], "matcher": rng.choice(["naive", "merge"]), "m2o": False,
+             "mmetric": "ASSD", "mthr": rng.choice([2.0, 3.0, 5.0]), "dmetric": "ASSD", "dthr": rng.choice([0.3, 0.6, 0.9])}
+        if it == "semantic":
+            c["backend"] = None
+            pred, ref = (pred != 0).astype(np.uint8), (ref != 0).astype(np.uint8)
         cases.append((c, pred, ref))
     # the decision metric is looked up among instance metrics whose NAMES contain each other (DSC / clDSC), in either order:
     # a thick bar predicted by its centre line has Dice < 0.5 but clDice = 1 (and a shifted copy the other way round)
